@@ -227,7 +227,16 @@ def run(ctx):
     # ---- R08.5 run loops bounded by the column counter ------------------------------------------------------------------------
     for f, counter, floor_ in (('codec::rle::rle_16_decompress', 'the column counter', 40), ('codec::rle::process_plane', 'the column counter', 4)):
         b = P.bodies[f]
-        wl = {2}        # the line width is the second parameter of both decoders
+        wl = {2}        # the line width is the second parameter of both decoders ...
+        grown = True
+        while grown:    # ... and every local that only ever holds a plain copy of it (the `width` parameter of an inlined helper)
+            grown = False
+            for l, ds in b.defs.items():
+                if isinstance(l, int) and l not in wl and ds and all(
+                        d[0] == 'stmt' and d[3]['rv']['rv'] == 'use' and is_place_op(d[3]['rv']['op']) and not d[3]['rv']['op']['place']['p']
+                        and d[3]['rv']['op']['place']['l'] in wl for d in ds):
+                    wl.add(l)
+                    grown = True
         cl = None
         cmps = set()
         for blk in range(b.n):
